@@ -80,7 +80,16 @@ func Harness_C08_Locations() {
 		w.emit("", unit, "# a whole-line comment")
 	}
 	w.emit("type", unit, "!type T:")
-	w.emit("field", 2*unit, "f <: int")
+	// the field's name as written: plain, or with an escape (stored decoded: "unit price")
+	fname, fkey := "f", "f"
+	escaped := comment // quick: tied to another selector so that the bound does not double
+	if nd.Thorough() {
+		escaped = nd.Bool("field-name-escaped")
+	}
+	if escaped {
+		fname, fkey = "unit%20price", "unit price"
+	}
+	w.emit("field", 2*unit, fname+" <: int")
 	w.blank(gap)
 	w.emit("endpoint", unit, "e:")
 	w.emit("action", 2*unit, "do something")
@@ -106,7 +115,7 @@ func Harness_C08_Locations() {
 		}
 		if redecl > 0 {
 			w.emit("typeT2", unit, "!type T:")
-			w.emit("fieldf2", 2*unit, "f <: "+[]string{"", "int", "set of int", "sequence of int"}[redecl])
+			w.emit("fieldf2", 2*unit, fname+" <: "+[]string{"", "int", "set of int", "sequence of int"}[redecl])
 			w.emit("fieldh", 2*unit, "h <: string")
 		}
 	}
@@ -149,7 +158,7 @@ func Harness_C08_Locations() {
 		nd.Assert("loc:re-opened-type-one-location-per-declaration-in-order", t != nil && len(t.SourceContexts) == 2 &&
 			c08At(t.SourceContexts[0], w.pos["type"]) && c08At(t.SourceContexts[1], w.pos["typeT2"]) && c08EndOK(t.SourceContexts[1]))
 		if t != nil {
-			f := t.GetTuple().GetAttrDefs()["f"]
+			f := t.GetTuple().GetAttrDefs()[fkey]
 			nd.Assert("loc:field-declared-again-one-location-per-declaration-in-order", f != nil && len(f.SourceContexts) == 2 &&
 				c08At(f.SourceContexts[0], w.pos["field"]) && c08At(f.SourceContexts[1], w.pos["fieldf2"]))
 			h := t.GetTuple().GetAttrDefs()["h"]
@@ -158,7 +167,7 @@ func Harness_C08_Locations() {
 	} else {
 		nd.Assert("loc:type", t != nil && len(t.SourceContexts) == 1 && c08At(t.SourceContexts[0], w.pos["type"]) && c08EndOK(t.SourceContexts[0]))
 		if t != nil {
-			f := t.GetTuple().GetAttrDefs()["f"]
+			f := t.GetTuple().GetAttrDefs()[fkey]
 			nd.Assert("loc:field", f != nil && len(f.SourceContexts) == 1 && c08At(f.SourceContexts[0], w.pos["field"]) && c08EndOK(f.SourceContexts[0]))
 		}
 	}
